@@ -286,6 +286,30 @@ static void do_revive(int who, unit_t *c)
 /* everything `who` has to reap, in creation order */
 static void reap_children(int who)
 {
+    if (rnd(4) == 0) {
+        /* join them all with one call first; null handles in the list are skipped */
+        ABT_thread list[2 * MAXU + 2];
+        unit_t *cs[MAXU + 1];
+        int n = 0, nc = 0;
+        for (int i = 1; i <= g_nu; i++) {
+            unit_t *c = &U[i];
+            if (c->reaper != who || !c->named)
+                continue;
+            while (!c->created)
+                pause_any(who);
+            if (rnd(3) == 0)
+                list[n++] = ABT_THREAD_NULL;
+            list[n++] = c->th;
+            cs[nc++] = c;
+        }
+        if (nc) {
+            for (int k = 0; k < nc; k++)
+                EV("\"e\":\"JoinCall\",\"by\":%d,\"u\":%d", who, cs[k]->id);
+            CHK(ABT_thread_join_many(n, list));
+            for (int k = 0; k < nc; k++)
+                EV("\"e\":\"JoinRet\",\"by\":%d,\"u\":%d,\"st\":%d,\"tok\":%d", who, cs[k]->id, state_of(cs[k]->th), cs[k]->token);
+        }
+    }
     for (int i = 1; i <= g_nu; i++) {
         unit_t *c = &U[i];
         if (c->reaper != who || !c->named)
@@ -1378,12 +1402,24 @@ static void scn_stacked(void) { scn_xjoin_impl(1); }
 static void scn_xjoin_impl(int stacked)
 {
     memset(U, 0, sizeof U);
-    ABT_pool upool = g_pool[1][0], q = ABT_POOL_NULL;
+    ABT_pool upool = g_pool[1][0], q = ABT_POOL_NULL, qs[3] = { ABT_POOL_NULL, ABT_POOL_NULL, ABT_POOL_NULL };
     ABT_sched s2 = ABT_SCHED_NULL;
+    int nq = 0;
     if (stacked) {
         static const ABT_sched_predef pre[3] = { ABT_SCHED_BASIC, ABT_SCHED_PRIO, ABT_SCHED_RANDWS };
-        CHK(ABT_pool_create_basic(rnd(2) ? ABT_POOL_FIFO : ABT_POOL_RANDWS, ABT_POOL_ACCESS_MPMC, ABT_FALSE, &q));
-        CHK(ABT_sched_create_basic(pre[rnd(3)], 1, &q, ABT_SCHED_CONFIG_NULL, &s2));
+        /* one to three pools of the user's own; the units live in one of them (any position:
+         * a lower priority, a pool the work-stealing scheduler only ever visits as a victim) */
+        nq = 1 + rnd(3);
+        for (int k = 0; k < nq; k++)
+            CHK(ABT_pool_create_basic(rnd(2) ? ABT_POOL_FIFO : ABT_POOL_RANDWS, ABT_POOL_ACCESS_MPMC, ABT_FALSE, &qs[k]));
+        if (rnd(2)) {
+            /* the pools have been given to a scheduler before; that scheduler was freed again */
+            ABT_sched s0;
+            CHK(ABT_sched_create_basic(pre[rnd(3)], nq, qs, ABT_SCHED_CONFIG_NULL, &s0));
+            CHK(ABT_sched_free(&s0));
+        }
+        CHK(ABT_sched_create_basic(pre[rnd(3)], nq, qs, ABT_SCHED_CONFIG_NULL, &s2));
+        q = qs[rnd(nq)];
         upool = q;
     }
     g_xj_go = 0;
@@ -1458,7 +1494,8 @@ static void scn_xjoin_impl(int stacked)
         size_t left = 0;
         CHK(ABT_pool_get_total_size(q, &left));
         EV("\"e\":\"Blocked\",\"tag\":\"afterjoin\",\"p\":9,\"n\":0,\"size\":%d", (int)left);
-        CHK(ABT_pool_free(&q));
+        for (int k = 0; k < nq; k++)
+            CHK(ABT_pool_free(&qs[k]));
     }
 }
 
